@@ -215,6 +215,96 @@ func (r *c11run) checkPatch(p result.Patch, what string) (checked int) {
 	return checked
 }
 
+// checkCombined: when several patches are applied together, every applied change is also
+// judged against the final manifest with only the patch it belongs to reverted (all other applied
+// patches in place): patches are computed independently against the original graph, so one can pin a
+// package below what another one brings.
+func (r *c11run) checkCombined(patches []result.Patch) {
+	w := r.w
+	var all []result.PackageUpdate
+	for _, p := range patches {
+		all = append(all, p.PackageUpdates...)
+	}
+	apply := func(ups []result.PackageUpdate) (Manifest, bool) {
+		if w.Sys == "npm" {
+			m := w.Manifest.clone()
+			var ok bool
+			m.Npm, ok = applyNpm(w.Manifest.Npm, ups)
+			return m, ok
+		}
+		return applyMaven(&w.Manifest, ups)
+	}
+	keyOf := func(u result.PackageUpdate) string {
+		if w.Sys == "npm" {
+			return updKey(u)
+		}
+		return u.Name
+	}
+	// do the applied patches claim the same fix twice?  (never on the unchanged tree: choosePatches
+	// skips a patch one of whose fixes an earlier chosen patch already has)
+	overlap := "disjoint-fixes"
+	seenFix := map[string]bool{}
+	for _, p := range patches {
+		for _, f := range p.Fixed {
+			if seenFix[f.ID] {
+				overlap = "overlapping-fixes"
+			}
+		}
+		for _, f := range p.Fixed {
+			seenFix[f.ID] = true
+		}
+	}
+	final, ok := apply(all)
+	if !ok {
+		r.out.Count("update_not_applicable_to_model", 1)
+		return
+	}
+	for pi, p := range patches {
+		done := map[string]bool{}
+		for _, u := range p.PackageUpdates {
+			key := keyOf(u)
+			lvl := w.Opts.level(u.Name)
+			if done[key] || lvl == "none" {
+				continue
+			}
+			done[key] = true
+			// revert the whole patch: interplay between the updates of ONE patch is judged by
+			// checkPatch (two readings); here it is the other applied patches that matter
+			var rest []result.PackageUpdate
+			for pj, q := range patches {
+				if pj != pi {
+					rest = append(rest, q.PackageUpdates...)
+				}
+			}
+			without, ok := apply(rest)
+			if !ok {
+				continue
+			}
+			v0, va, vb := r.resolved(&w.Manifest)[key], r.resolved(&without)[key], r.resolved(&final)[key]
+			if va == "" || vb == "" || v0 == "" {
+				r.out.Count("base_or_new_version_undefined", 1)
+				continue
+			}
+			c, diff, err := semverOf(w).Difference(va, vb)
+			c0, diff0, err0 := semverOf(w).Difference(v0, vb)
+			if err != nil || err0 != nil {
+				continue
+			}
+			r.out.Count("combined_updates_checked", 1)
+			feat := features(w, all, p.Fixed, p.Introduced)
+			if targetUpperBounded(w, u.Name) {
+				feat = strings.TrimSuffix("target-upper-bounded+"+feat, "+")
+			}
+			switch {
+			case c >= 0:
+				r.out.Violate("not-upward", fmt.Sprintf("not-upward:%s:combined:%s:%s", w.Sys, overlap, feat), "%d patches applied together %s: with all other applied patches in place %s resolves to %s without patch %s and to %s with it (original manifest: %s): not strictly upward; %s", len(patches), patchesString(patches), u.Name, va, patchString(p), vb, v0, r.ctx)
+			case c < 0 && !allows(lvl, diff) && !(c0 < 0 && allows(lvl, diff0)):
+				r.out.Violate("level-exceeded", fmt.Sprintf("level-exceeded:%s:combined:%s:%s:%s", w.Sys, overlap, lvl, feat), "%d patches applied together %s: with all other applied patches in place %s moves %s -> %s through patch %s (original manifest: %s), more than its level %s allows; %s", len(patches), patchesString(patches), u.Name, va, vb, patchString(p), v0, lvl, r.ctx)
+			}
+		}
+	}
+}
+
 // checkUpdateMode applies the oracle to the single patch of Update: every update stands alone.
 func (r *c11run) checkUpdateMode(p result.Patch) (checked int) {
 	w := r.w
@@ -468,6 +558,9 @@ func (C11) Run(t *testing.T, scn any) *sim.Outcome {
 		for _, p := range obs.Res.Patches {
 			seen[patchString(p)] = true
 			checked += r.checkPatch(p, "applied")
+		}
+		if len(obs.Res.Patches) > 1 && len(out.Violations) == 0 {
+			r.checkCombined(obs.Res.Patches)
 		}
 		// every patch the strategy proposes (complete list, fresh un-faulted computation)
 		all := Execute(t, w, RunSpec{Kind: "all", Dir: filepath.Join(dir, "all"), Manifest: &w.Manifest, Pass: true})
